@@ -1246,3 +1246,436 @@ theorem crlf_mixed_chunk_dependent :
     parseLines [[97], [98, 13]] = [[97], [98, 13]] ∧ ([[[97]], [[98, 13]]].map parseLines).flatten = [[97], [98]] := by decide
 
 end C01
+
+/-! ### files that are NOT made of whole records (a truncated last record)
+
+The development above assumes a well-formed file (`WF`). Here nothing is assumed about the file: the
+delivered chunks are still consecutive pieces of the terminated file, each entry-aligned, and what is
+never delivered (`rest`) holds no complete entry. For the k-line formats this pins down the delivered
+bytes exactly: the largest whole number of records, for every chunk size and mode. -/
+namespace C01
+
+structure LawsT (F : Fmt) (AL : Bytes → Prop) : Prop where
+  marker_nil : F.marker = []
+  nil_incomplete : F.complete [] = false
+  cut_pos : ∀ c, F.complete c = true → 0 < F.cutLen c ∧ F.cutLen c ≤ c.length
+  cut_nl : ∀ c, F.complete c = true → (c.take (F.cutLen c)).getLast? = some NL
+  cut_al : ∀ c, F.complete c = true → AL (c.take (F.cutLen c))
+  cut_rest : ∀ c, F.complete c = true → F.complete (c.drop (F.cutLen c)) = false
+
+def AccPostT (F : Fmt) (file : Bytes) (lp d : Nat) : Option (Bytes × Nat × Bool) → Prop
+  | none => file.drop lp = [] ∨ F.complete (fixEnd F (file.drop lp)) = false
+  | some (chunk, pos', fin) =>
+    F.complete chunk = true ∧ lp + d ≤ pos' ∧ pos' ≤ file.length ∧
+    (fin = false → chunk = (file.drop lp).take (pos' - lp) ∧ lp < pos') ∧
+    (fin = true → pos' = file.length ∧ file.drop lp ≠ [] ∧ chunk = fixEnd F (file.drop lp))
+
+/-- after a short read that did not complete an entry, the next raw read is empty and the loop gives up -/
+theorem accumulate_after_fin (F : Fmt) (file : Bytes) (k : Nat) (fuel : Nat) (acc : Bytes) :
+    accumulate F true file k fuel file.length acc true = none := by
+  cases fuel with
+  | zero => rfl
+  | succ f => simp [accumulate]
+
+theorem accumulate_specT (F : Fmt) (file : Bytes) (k : Nat) (hk : 0 < k) (lp : Nat) :
+    ∀ (fuel d : Nat) (acc : Bytes) (finPrev : Bool),
+      lp + d ≤ file.length → acc = (file.drop lp).take d →
+      (finPrev = true → lp + d = file.length ∧ d = 0) →
+      file.length - (lp + d) < fuel →
+      AccPostT F file lp d (accumulate F true file k fuel (lp + d) acc finPrev) := by
+  intro fuel
+  induction fuel with
+  | zero => intro d acc finPrev _ _ _ hf; omega
+  | succ fuel ih =>
+    intro d acc finPrev hle hacc hfin hfuel
+    obtain ⟨r, hr⟩ : ∃ r, r = file.drop lp := ⟨_, rfl⟩
+    have hrlen : r.length = file.length - lp := by rw [hr]; simp
+    have hdrop : file.drop (lp + d) = r.drop d := by rw [hr, List.drop_drop]
+    obtain ⟨raw, hraw⟩ : ∃ raw, raw = (r.drop d).take k := ⟨_, rfl⟩
+    have hrawlen : raw.length = min k (file.length - (lp + d)) := by
+      rw [hraw]; simp [hrlen]; omega
+    have hstep : accumulate F true file k (fuel + 1) (lp + d) acc finPrev =
+        (if raw.length = 0 then
+          if (true && !acc.isEmpty && !finPrev) = true then
+            if F.complete (fixEnd F acc) = true then some (fixEnd F acc, lp + d, true) else none
+          else none
+        else
+          if F.complete (acc ++ (if decide (raw.length < k) = true then fixEnd F raw else raw)) = true then
+            some (acc ++ (if decide (raw.length < k) = true then fixEnd F raw else raw), lp + d + raw.length, decide (raw.length < k))
+          else accumulate F true file k fuel (lp + d + raw.length)
+            (acc ++ (if decide (raw.length < k) = true then fixEnd F raw else raw)) (decide (raw.length < k))) := by
+      rw [accumulate, hdrop, ← hraw]
+    rw [hstep]
+    rw [← hr] at hacc
+    by_cases h0 : raw.length = 0
+    · have hpos : lp + d = file.length := by omega
+      have hacc' : acc = r := by
+        rw [hacc]; apply List.take_of_length_le; omega
+      rw [if_pos h0]
+      by_cases hc : (true && !acc.isEmpty && !finPrev) = true
+      · rw [if_pos hc]
+        simp only [Bool.true_and, Bool.and_eq_true, Bool.not_eq_true', List.isEmpty_eq_false_iff] at hc
+        have hrne : r ≠ [] := by rw [← hacc']; exact hc.1
+        rw [hacc']
+        by_cases hcomp : F.complete (fixEnd F r) = true
+        · rw [if_pos hcomp]
+          unfold AccPostT
+          rw [← hr]
+          exact ⟨hcomp, by omega, by omega, by simp, fun _ => ⟨hpos, hrne, rfl⟩⟩
+        · rw [if_neg hcomp]
+          unfold AccPostT
+          rw [← hr]
+          right; simpa using hcomp
+      · rw [if_neg hc]
+        unfold AccPostT
+        rw [← hr]
+        left
+        simp only [Bool.true_and, Bool.and_eq_true, Bool.not_eq_true', List.isEmpty_eq_false_iff, not_and,
+          Bool.not_eq_false] at hc
+        by_cases hne : acc = []
+        · rw [← hacc', hne]
+        · have := hfin (hc hne)
+          have : r.length = 0 := by omega
+          exact List.eq_nil_of_length_eq_zero this
+    · rw [if_neg h0]
+      have hrawne : raw ≠ [] := by intro h; rw [h] at h0; simp at h0
+      have happ : acc ++ raw = r.take (d + k) := by rw [hacc, hraw, ← take_add']
+      by_cases hfinb : raw.length < k
+      · have hend : lp + d + raw.length = file.length := by omega
+        have hall : acc ++ raw = r := by
+          rw [happ]; apply List.take_of_length_le; omega
+        have hrne : r ≠ [] := by rw [← hall]; simp [hrawne]
+        have hfix : acc ++ fixEnd F raw = fixEnd F r := by
+          unfold fixEnd
+          rw [← List.append_assoc, ← addNL_append acc raw hrawne, hall]
+        have hd : decide (raw.length < k) = true := by simp [hfinb]
+        rw [hd]
+        simp only [↓reduceIte]
+        rw [hfix]
+        by_cases hcomp : F.complete (fixEnd F r) = true
+        · rw [if_pos hcomp]
+          unfold AccPostT
+          rw [← hr]
+          exact ⟨hcomp, by omega, by omega, by simp, fun _ => ⟨by omega, hrne, rfl⟩⟩
+        · rw [if_neg hcomp, hend, accumulate_after_fin]
+          unfold AccPostT
+          rw [← hr]
+          right; simpa using hcomp
+      · have hlen : raw.length = k := by omega
+        have hd : decide (raw.length < k) = false := by simp [hfinb]
+        rw [hd]
+        simp only [Bool.false_eq_true, ↓reduceIte]
+        by_cases hcomp : F.complete (acc ++ raw) = true
+        · rw [if_pos hcomp]
+          unfold AccPostT
+          rw [← hr]
+          refine ⟨hcomp, by omega, by omega, fun _ => ⟨?_, by omega⟩, by simp⟩
+          rw [happ]; congr 1; omega
+        · rw [if_neg hcomp]
+          have := ih (d + k) (acc ++ raw) false (by omega) (by rw [← hr]; exact happ) (by simp) (by omega)
+          have e : lp + (d + k) = lp + d + raw.length := by omega
+          rw [e] at this
+          revert this
+          generalize accumulate F true file k fuel (lp + d + raw.length) (acc ++ raw) false = res
+          intro h
+          cases res with
+          | none => exact h
+          | some v =>
+            obtain ⟨chunk, pos', fin⟩ := v
+            unfold AccPostT at h ⊢
+            exact ⟨h.1, by omega, h.2.2.1, h.2.2.2.1, h.2.2.2.2⟩
+
+theorem readChunk_specT (F : Fmt) (AL : Bytes → Prop) (L : LawsT F AL) (mode : Mode) (file : Bytes)
+    (k : Nat) (hk : 0 < k) (s : St) (lp : Nat) (hI : Inv file s lp) :
+    match readChunk F true mode file k s with
+    | none => file.drop lp = [] ∨ F.complete (addNL (file.drop lp)) = false
+    | some (out, s') =>
+      (∃ n, 0 < n ∧ out = (file.drop lp).take n ∧ out.length = n ∧ out.getLast? = some NL ∧
+        Inv file s' (lp + n) ∧ lp + n ≤ file.length ∧ AL out) ∨
+      (∃ n, 0 < n ∧ n ≤ (addNL (file.drop lp)).length ∧ out = (addNL (file.drop lp)).take n ∧
+        out.getLast? = some NL ∧ F.complete ((addNL (file.drop lp)).drop n) = false ∧
+        file.drop lp ≠ [] ∧ Inv file s' file.length ∧ s'.finished = true ∧ AL out) := by
+  unfold readChunk
+  have hspec := accumulate_specT F file k hk lp (file.length + 2) s.carry.length s.carry s.finished
+    (by rw [hI.pos]; exact hI.le) hI.carry
+    (by intro h; have := hI.fin h; rw [hI.pos]; refine ⟨this.1, ?_⟩; rw [this.2]; rfl)
+    (by omega)
+  rw [hI.pos] at hspec
+  have hfix : ∀ b, fixEnd F b = addNL b := by intro b; unfold fixEnd; rw [L.marker_nil]; simp
+  revert hspec
+  cases hacc : accumulate F true file k (file.length + 2) s.pos s.carry s.finished with
+  | none => intro h; unfold AccPostT at h; rw [hfix] at h; exact h
+  | some res =>
+    obtain ⟨chunk, pos', fin⟩ := res
+    intro h
+    unfold AccPostT at h
+    obtain ⟨hcomp, hle1, hle2, hnf, hf⟩ := h
+    obtain ⟨r, hr⟩ : ∃ r, r = file.drop lp := ⟨_, rfl⟩
+    have hrlen : r.length = file.length - lp := by rw [hr]; simp
+    rw [← hr] at hnf hf ⊢
+    have hcp := L.cut_pos chunk hcomp
+    have hnl := L.cut_nl chunk hcomp
+    have hal := L.cut_al chunk hcomp
+    have hrest := L.cut_rest chunk hcomp
+    cases fin with
+    | true =>
+      right
+      obtain ⟨hp, hrne, hchunk⟩ := hf rfl
+      rw [hfix] at hchunk
+      simp only [↓reduceIte]
+      rw [hchunk] at hcp hnl hal hrest ⊢
+      exact ⟨_, hcp.1, hcp.2, rfl, hnl, hrest, hrne,
+        ⟨by simp [hp], by simp [hp], by simp, by intro _; simp [hp]⟩, trivial, hal⟩
+    | false =>
+      left
+      obtain ⟨hchunk, hlt⟩ := hnf rfl
+      have hclen : chunk.length = pos' - lp := by
+        rw [hchunk]; simp [hrlen]; omega
+      obtain ⟨n, hn⟩ : ∃ n, n = F.cutLen chunk := ⟨_, rfl⟩
+      rw [← hn] at hcp hnl hal
+      have hout : chunk.take n = r.take n := by
+        rw [hchunk, List.take_take]; congr 1; omega
+      have hdd : r.drop n = file.drop (lp + n) := by rw [hr, List.drop_drop]
+      refine ⟨n, hcp.1, ?_, ?_, ?_, ?_, by omega, ?_⟩
+      · simp only [← hn]; exact hout
+      · simp only [← hn]; rw [List.length_take]; omega
+      · simp only [← hn]; exact hnl
+      · simp only [Bool.false_eq_true, ↓reduceIte, ← hn]
+        cases mode with
+        | seek =>
+          refine ⟨by simp; omega, by simp; omega, by simp, by simp⟩
+        | carry =>
+          have hcl : (chunk.drop n).length = pos' - lp - n := by simp [hclen]
+          refine ⟨by simp only [hcl]; omega, hle2, ?_, by simp⟩
+          simp only [hcl]
+          rw [hchunk, List.drop_take, ← hdd]
+      · simp only [← hn]; exact hal
+
+theorem readChunk_finishedT (F : Fmt) (AL : Bytes → Prop) (L : LawsT F AL) (mode : Mode) (file : Bytes)
+    (k : Nat) (hk : 0 < k) (s : St) (hI : Inv file s file.length) :
+    readChunk F true mode file k s = none := by
+  have h := readChunk_specT F AL L mode file k hk s file.length hI
+  revert h
+  cases readChunk F true mode file k s with
+  | none => intro _; rfl
+  | some res =>
+    obtain ⟨out, s'⟩ := res
+    intro h
+    rcases h with ⟨n, hn, hout, hlen, _⟩ | ⟨n, _, _, _, _, _, hne, _⟩
+    · simp at hout; rw [hout] at hlen; simp at hlen; omega
+    · simp at hne
+
+theorem readLoop_specT (F : Fmt) (AL : Bytes → Prop) (L : LawsT F AL) (mode : Mode)
+    (file : Bytes) (k : Nat) (hk : 0 < k) :
+    ∀ (fuel : Nat) (s : St) (lp : Nat), Inv file s lp →
+      (lp = 0 ∨ (file.take lp).getLast? = some NL) → lp ≤ file.length → file.length - lp < fuel →
+      (∃ rest, file.take lp ++ (readLoop F true mode file k fuel s).flatten ++ rest = norm file ∧
+        F.complete rest = false) ∧
+      ∀ c ∈ readLoop F true mode file k fuel s, c ≠ [] ∧ c.getLast? = some NL ∧ AL c := by
+  intro fuel
+  induction fuel with
+  | zero => intro s lp _ _ _ hf; omega
+  | succ fuel ih =>
+    intro s lp hI hJ hle hfuel
+    have hspec := readChunk_specT F AL L mode file k hk s lp hI
+    unfold readLoop
+    revert hspec
+    cases hrc : readChunk F true mode file k s with
+    | none =>
+      intro h
+      simp only [List.flatten_nil, List.append_nil, List.not_mem_nil, false_imp_iff, implies_true, and_true]
+      rcases h with h | h
+      · -- nothing left
+        refine ⟨[], ?_, L.nil_incomplete⟩
+        have hlen : file.length ≤ lp := by
+          have := congrArg List.length h; simp at this; omega
+        rw [List.take_of_length_le hlen, List.append_nil]
+        unfold norm
+        by_cases hf : file = []
+        · simp [hf]
+        · have hne : file.isEmpty = false := by simp [hf]
+          simp only [hne, Bool.false_eq_true, ↓reduceIte]
+          rcases hJ with h0 | hl
+          · exfalso; apply hf; apply List.eq_nil_of_length_eq_zero; omega
+          · rw [List.take_of_length_le hlen] at hl
+            exact (addNL_of_getLast file hl).symm
+      · -- what is left holds no complete entry
+        by_cases hne : file.drop lp = []
+        · rw [hne] at h
+          refine ⟨[], ?_, L.nil_incomplete⟩
+          have hlen : file.length ≤ lp := by
+            have := congrArg List.length hne; simp at this; omega
+          rw [List.take_of_length_le hlen, List.append_nil]
+          unfold norm
+          by_cases hf : file = []
+          · simp [hf]
+          · have hne' : file.isEmpty = false := by simp [hf]
+            simp only [hne', Bool.false_eq_true, ↓reduceIte]
+            rcases hJ with h0 | hl
+            · exfalso; apply hf; apply List.eq_nil_of_length_eq_zero; omega
+            · rw [List.take_of_length_le hlen] at hl
+              exact (addNL_of_getLast file hl).symm
+        · refine ⟨addNL (file.drop lp), ?_, h⟩
+          rw [← addNL_append _ _ hne, List.take_append_drop]
+          unfold norm
+          have : file ≠ [] := by intro e; rw [e] at hne; simp at hne
+          simp [this]
+    | some res =>
+      obtain ⟨out, s'⟩ := res
+      intro h
+      rcases h with ⟨n, hn, hout, hlen, hnl, hI', hle', hal⟩ | ⟨n, hn, hnle, hout, hnl, hrest, hne, hI', hfin', hal⟩
+      · have hone : out ≠ [] := by intro e; rw [e] at hlen; simp at hlen; omega
+        have hemp : out.isEmpty = false := by simp [hone]
+        simp only [hemp, Bool.false_eq_true, ↓reduceIte, List.flatten_cons, List.mem_cons, forall_eq_or_imp]
+        have hJ' : lp + n = 0 ∨ (file.take (lp + n)).getLast? = some NL := by
+          right
+          rw [take_add', ← hout, getLast?_append_of_ne_nil _ _ hone]; exact hnl
+        have := ih s' (lp + n) hI' hJ' hle' (by omega)
+        obtain ⟨⟨rest, hrest1, hrest2⟩, hall⟩ := this
+        refine ⟨⟨rest, ?_, hrest2⟩, ⟨hone, hnl, hal⟩, hall⟩
+        rw [← hrest1, take_add', ← hout]; simp [List.append_assoc]
+      · have hone : out ≠ [] := by
+          intro e; rw [e] at hout
+          have := congrArg List.length hout; simp at this; omega
+        have hemp : out.isEmpty = false := by simp [hone]
+        simp only [hemp, Bool.false_eq_true, ↓reduceIte, List.flatten_cons, List.mem_cons, forall_eq_or_imp]
+        have hrestl : readLoop F true mode file k fuel s' = [] := by
+          cases fuel with
+          | zero => rfl
+          | succ f =>
+            unfold readLoop
+            rw [readChunk_finishedT F AL L mode file k hk s' hI']
+        rw [hrestl]
+        simp only [List.flatten_nil, List.append_nil, List.not_mem_nil, false_imp_iff, implies_true, and_true]
+        refine ⟨⟨(addNL (file.drop lp)).drop n, ?_, hrest⟩, hone, hnl, hal⟩
+        rw [hout, List.append_assoc, List.take_append_drop, ← addNL_append _ _ hne, List.take_append_drop]
+        unfold norm
+        have : file ≠ [] := by intro e; rw [e] at hne; simp at hne
+        simp [this]
+
+/-- **C01.readAll_bytesT** — no hypothesis on the file: the delivered chunks followed by what is never delivered
+are the terminated file; what is never delivered holds no complete entry; every chunk is non-empty, ends after
+a newline and is entry-aligned. -/
+theorem readAll_bytesT (F : Fmt) (AL : Bytes → Prop) (L : LawsT F AL) (mode : Mode) (file : Bytes) (k : Nat) (hk : 0 < k) :
+    (∃ rest, (readAll F true mode file k).flatten ++ rest = norm file ∧ F.complete rest = false) ∧
+    ∀ c ∈ readAll F true mode file k, c ≠ [] ∧ c.getLast? = some NL ∧ AL c := by
+  have h := readLoop_specT F AL L mode file k hk (file.length + 2) init 0
+    ⟨by simp [init], by simp [init], by simp [init], by simp [init]⟩ (Or.inl rfl) (by omega) (by omega)
+  simpa [readAll] using h
+
+end C01
+
+/-! ### the k-line instance without well-formedness: exactly the whole records are delivered -/
+namespace C01
+
+theorem prefix_append (p rest : Bytes) (h : p.getLast? = some NL) :
+    prefixThroughNL (countNL p) (p ++ rest) = p.length := by
+  induction p with
+  | nil => simp at h
+  | cons x xs ih =>
+    cases xs with
+    | nil =>
+      simp at h
+      simp [h, countNL, prefixThroughNL]
+    | cons y ys =>
+      have h' : (y :: ys).getLast? = some NL := by simpa [List.getLast?_cons_cons] using h
+      have ih' := ih h'
+      have hpos := countNL_pos_of_getLast _ h'
+      rw [countNL_cons]
+      by_cases hx : x = NL
+      · simp only [hx, ↓reduceIte]
+        have : prefixThroughNL (1 + countNL (y :: ys)) (NL :: ((y :: ys) ++ rest)) =
+            1 + prefixThroughNL (countNL (y :: ys)) ((y :: ys) ++ rest) := by
+          rw [show 1 + countNL (y :: ys) = countNL (y :: ys) + 1 by omega]
+          simp [prefixThroughNL]
+        rw [List.cons_append, this, ih']; simp; omega
+      · simp only [hx, ↓reduceIte, Nat.zero_add]
+        obtain ⟨c, hc⟩ : ∃ c, countNL (y :: ys) = c + 1 := ⟨countNL (y :: ys) - 1, by omega⟩
+        rw [hc] at ih' ⊢
+        have : prefixThroughNL (c + 1) (x :: ((y :: ys) ++ rest)) = 1 + prefixThroughNL (c + 1) ((y :: ys) ++ rest) := by
+          simp [prefixThroughNL, hx]
+        rw [List.cons_append, this, ih']; simp; omega
+
+theorem kLine_lawsT (n : Nat) (hn : 0 < n) : LawsT (Fmt.kLine n) (fun c => n ∣ countNL c) where
+  marker_nil := rfl
+  nil_incomplete := by simp [Fmt.kLine, countNL]; omega
+  cut_pos := (kLine_laws n hn).cut_pos
+  cut_nl := (kLine_laws n hn).cut_nl
+  cut_al := by
+    intro c hc
+    simp only [Fmt.kLine, decide_eq_true_eq] at hc ⊢
+    have hm := mult_facts n (countNL c) hn hc
+    rw [(prefix_spec c _ hm.1 hm.2.1).2.2.2]
+    exact hm.2.2
+  cut_rest := by
+    intro c hc
+    simp only [Fmt.kLine, decide_eq_true_eq, decide_eq_false_iff_not, Nat.not_le] at hc ⊢
+    have hm := mult_facts n (countNL c) hn hc
+    have hs := (prefix_spec c _ hm.1 hm.2.1).2.2.2
+    have hsplit : countNL c = countNL (c.take (prefixThroughNL (countNL c - countNL c % n) c)) +
+        countNL (c.drop (prefixThroughNL (countNL c - countNL c % n) c)) := by
+      rw [← countNL_append, List.take_append_drop]
+    have := Nat.mod_lt (countNL c) hn
+    omega
+
+theorem dvd_countNL_flatten (n : Nat) (cs : List Bytes) (h : ∀ c ∈ cs, n ∣ countNL c) : n ∣ countNL cs.flatten := by
+  induction cs with
+  | nil => simp [countNL]
+  | cons c cs ih =>
+    rw [List.flatten_cons, countNL_append]
+    exact Nat.dvd_add (h c (by simp)) (ih (fun c hc => h c (by simp [hc])))
+
+theorem flatten_getLast (cs : List Bytes) (h : ∀ c ∈ cs, c ≠ [] ∧ c.getLast? = some NL) (hne : cs ≠ []) :
+    cs.flatten.getLast? = some NL := by
+  induction cs with
+  | nil => exact absurd rfl hne
+  | cons c cs ih =>
+    rw [List.flatten_cons]
+    by_cases hcs : cs = []
+    · rw [hcs]; simp; exact (h c (by simp)).2
+    · have hfl : cs.flatten ≠ [] := by
+        cases cs with
+        | nil => exact absurd rfl hcs
+        | cons d ds =>
+          intro e
+          have := (h d (by simp)).1
+          rw [List.flatten_cons] at e
+          exact this (List.append_eq_nil_iff.mp e).1
+      rw [getLast?_append_of_ne_nil _ _ hfl]
+      exact ih (fun c hc => h c (by simp [hc])) hcs
+
+/-- **C01.readAll_kLine_any_file** — FASTQ (n = 4) / two-line FASTA (n = 2) files of ANY content, in particular files
+that end inside a record: for every chunk size and both modes the delivered chunks concatenate to the first
+`⌊lines/n⌋·n` lines of the terminated file — all whole records, nothing of the truncated one — and every chunk
+holds a whole number of records. -/
+theorem readAll_kLine_any_file (n : Nat) (hn : 0 < n) (mode : Mode) (file : Bytes) (k : Nat) (hk : 0 < k) :
+    (readAll (Fmt.kLine n) true mode file k).flatten =
+      (norm file).take (prefixThroughNL (countNL (norm file) - countNL (norm file) % n) (norm file)) ∧
+    countNL (readAll (Fmt.kLine n) true mode file k).flatten = countNL (norm file) - countNL (norm file) % n ∧
+    ∀ c ∈ readAll (Fmt.kLine n) true mode file k, c ≠ [] ∧ c.getLast? = some NL ∧ n ∣ countNL c := by
+  obtain ⟨⟨rest, hsplit, hrest⟩, hall⟩ := readAll_bytesT (Fmt.kLine n) _ (kLine_lawsT n hn) mode file k hk
+  obtain ⟨cs, hcs⟩ : ∃ cs, cs = readAll (Fmt.kLine n) true mode file k := ⟨_, rfl⟩
+  rw [← hcs] at hsplit hall ⊢
+  have hdvd := dvd_countNL_flatten n cs (fun c hc => (hall c hc).2.2)
+  simp only [Fmt.kLine, decide_eq_false_iff_not, Nat.not_le] at hrest
+  have hcount : countNL (norm file) = countNL cs.flatten + countNL rest := by rw [← hsplit, countNL_append]
+  have hm : countNL cs.flatten = countNL (norm file) - countNL (norm file) % n := by
+    obtain ⟨q, hq⟩ := hdvd
+    have h1 : countNL (norm file) % n = countNL rest := by
+      rw [hcount, hq, Nat.mul_add_mod]; exact Nat.mod_eq_of_lt hrest
+    omega
+  refine ⟨?_, hm, hall⟩
+  by_cases hnil : cs = []
+  · rw [hnil] at hm ⊢
+    simp only [List.flatten_nil] at hm ⊢
+    have h0 : countNL (norm file) - countNL (norm file) % n = 0 := by rw [← hm]; simp [countNL]
+    rw [h0]
+    cases norm file <;> simp [prefixThroughNL]
+  · have hlast := flatten_getLast cs (fun c hc => ⟨(hall c hc).1, (hall c hc).2.1⟩) hnil
+    rw [← hm, ← hsplit, prefix_append _ _ hlast]
+    simp
+
+/-- non-vacuity: `@a/A/+/I/@b` (ends inside the second record), chunk size 3: one record delivered, `@b` never -/
+example : (readAll (Fmt.kLine 4) true .seek [64,97,10,65,10,43,10,73,10,64,98,10] 3).flatten = [64,97,10,65,10,43,10,73,10] := by decide
+
+end C01
